@@ -31,8 +31,9 @@ MAX_TIMEOUTS = {"quick": 1, "thorough": 20}
 REQUIRED = {"residue_classes": 600, "isomorphism_pairs_checked": 500, "same_name_different_content": 60,
             "virtual_sites_checked": 300, "vs_kinds": 7, "optimiser_successes_rechecked": 300, "impropers_rechecked": 60,
             "user_templates": 40, "user_volumes": 60, "equivariance_checks": 500, "size_independence_checks": 25,
-            "optimiser_failures_seen": 30, "same_names_other_connectivity": 10}
-CAP = {"opt": []}
+            "optimiser_failures_seen": 30, "same_names_other_connectivity": 10, "two_templates_under_one_name": 8,
+            "templates_reported_optimised_rechecked": 500, "templates_reported_unoptimised": 50, "build_files_with_volumes_first": 40}
+CAP = {"opt": [], "blocks": [], "final": [], "failed": set()}
 _done = False
 
 
@@ -50,6 +51,49 @@ def setup():
             return ok, out
         return optimize_geometry
     attach.wrap_function(gt, "optimize_geometry", mk)
+
+    # what the template generator reports: a residue for which no 'Failed to optimize' warning was issued is reported
+    # as optimised, whatever the individual optimiser calls said
+    def mk_extract(orig):
+        def extract_block(*a, **k):
+            block = orig(*a, **k)
+            CAP["blocks"].append(block)
+            return block
+        return extract_block
+    attach.wrap_function(gt, "extract_block", mk_extract)
+
+    import logging
+
+    class _H(logging.Handler):
+        def emit(self, record):
+            try:
+                msg = record.getMessage()
+            except Exception:
+                msg = str(record.msg)
+            if "Failed to optimize structure for block" in str(record.msg) or "Failed to optimize structure" in msg:
+                args = record.args if isinstance(record.args, (tuple, list)) else ()
+                name = str(args[0]) if args else msg.rsplit(" ", 1)[-1].rstrip(".")
+                CAP["failed"].add(name)
+
+    def mk_gen(orig):
+        def gen_templates(self, meta_molecule, template_graphs):
+            before = set(self.templates)
+            n0 = len(CAP["blocks"])
+            h = _H(level=logging.WARNING)
+            lg = logging.getLogger("polyply")
+            lg.addHandler(h)
+            try:
+                out = orig(self, meta_molecule, template_graphs)
+            finally:
+                lg.removeHandler(h)
+            new = [g for g in template_graphs if g not in before and g in self.templates]
+            blocks = CAP["blocks"][n0:]
+            if len(new) == len(blocks):
+                for g, b in zip(new, blocks):
+                    CAP["final"].append((b, {n: np.array(v, dtype=float) for n, v in self.templates[g].items()}))
+            return out
+        return gen_templates
+    attach.wrap_method(gt.GenerateTemplates, "gen_templates", mk_gen)
 
 
 def plan(tier, seed):
@@ -115,7 +159,7 @@ VS_KINDS = [("virtual_sites2", "1", 2, lambda r: ["%.3f" % r.uniform(0.1, 0.9)])
 
 
 def gen_residue(rng, resname, variant=0):
-    kind = rng.choice(["chain", "ring", "branch", "improper", "vs", "vs", "single", "frustrated"])
+    kind = rng.choice(["chain", "ring", "branch", "improper", "vs", "vs", "single", "frustrated", "frustrated_imp", "vs_nested"])
     atoms, bonds, angles, imps, vs = [], [], [], [], []
     cons = []
     # atom names are specific to the residue definition: residues with the same atom names and bonds are by
@@ -143,6 +187,26 @@ def gen_residue(rng, resname, variant=0):
             cons = [(0, 1, 0.25), (1, 2, 0.25), (0, 2, round(rng.uniform(0.62, 0.75), 3))]
         else:
             bonds = [(0, 1, 0.25), (1, 2, 0.25), (0, 2, round(rng.uniform(0.62, 0.75), 3))]
+    elif kind == "vs_nested":
+        # virtual sites built from virtual sites: GROMACS constructs them type by type (2, 3, 4, then n), whatever the
+        # order of the sections in the file
+        atoms = [pre + str(i) for i in range(3)] + ["VS", "VT", "VU"]
+        bonds = [(0, 1, round(rng.uniform(0.28, 0.4), 3)), (1, 2, round(rng.uniform(0.28, 0.4), 3)),
+                 (0, 2, round(rng.uniform(0.3, 0.45), 3))]
+        inner = [("virtual_sites2", "1", 3, [0, 1], ["%.3f" % rng.uniform(0.2, 0.8)]),
+                 ("virtual_sites2", "1", 4, [1, 2], ["%.3f" % rng.uniform(0.2, 0.8)])]
+        if rng.random() < 0.5:
+            outer = ("virtual_sites3", "1", 5, [3, 4, 0], ["%.3f" % rng.uniform(0.1, 0.4), "%.3f" % rng.uniform(0.1, 0.4)])
+        else:
+            outer = ("virtual_sitesn", "1", 5, [3, 4, 2], [])
+        vs = ([outer] + inner) if rng.random() < 0.5 else (inner + [outer])
+    elif kind == "frustrated_imp":
+        # a flat centre (three angles of 120 degrees) that is asked to be pyramidal by its improper: distances and
+        # angles can be met, the complete set cannot - the generator must not report such a template as optimised
+        atoms = [pre + str(i) for i in range(4)]
+        bonds = [(0, 1, 0.3), (0, 2, 0.3), (0, 3, 0.3)]
+        angles = [(1, 0, 2, 120), (1, 0, 3, 120), (2, 0, 3, 120)]
+        imps.append((0, 1, 2, 3, rng.choice([-35, 35])))
     elif kind == "improper":
         atoms = [pre + str(i) for i in range(4)]
         bonds = [(0, 1, 0.3), (0, 2, 0.3), (0, 3, 0.3), (1, 2, 0.45), (2, 3, 0.45)]
@@ -175,7 +239,7 @@ def render(sysd):
             first.append(k)
             for j, a in enumerate(r["atoms"]):
                 L.append("%d %s %d %s %s %d 0.0 %s" % (k + j, "A" if j % 2 == 0 else "B", ri + 1, r["name"], a, k + j,
-                                                      "0.0" if a == "VS" else "36.0"))
+                                                      "0.0" if a in ("VS", "VT", "VU") else "36.0"))
             for i, j, b0 in r["bonds"]:
                 bonds.append("%d %d 1 %.3f 5000" % (k + i, k + j, b0))
             for i, j, b0 in r.get("cons", []):
@@ -229,6 +293,9 @@ def build_topology(text, workdir, name, build=None):
     if build:
         load_build_files(top, None, [Path(build)])
     del CAP["opt"][:]
+    del CAP["blocks"][:]
+    del CAP["final"][:]
+    CAP["failed"].clear()
     GenerateTemplates(topology=top, max_opt=10, skip_filter=False).run_system(top)
     return top
 
@@ -279,13 +346,14 @@ def run_case(cid, rng, workdir):
     # build file with user templates / volumes
     build = None
     user_t, user_v = {}, {}
+    user_t2, user_v2 = {}, {}
     used = {}
     for mt in moltypes:
         for r in mt["res"]:
             used.setdefault(r["name"], []).append(r)
     alias_src = pool[("RZ", 0)]["atoms"] if ("RZ", 0) in pool else None
     single_variant = [nm for nm, lst in used.items() if len({id(x) for x in lst}) == 1 and lst[0]["atoms"] != alias_src]
-    if rng.random() < 0.45 and single_variant:
+    if rng.random() < 0.45:
         bl = []
         for nm in single_variant:
             r = used[nm][0]
@@ -305,8 +373,39 @@ def run_case(cid, rng, workdir):
                 user_t[nm] = coords
             if rng.random() < 0.6:
                 user_v[nm] = round(rng.uniform(0.3, 0.8), 3)
-        if user_v:
-            bl += ["[ volumes ]"] + ["%s %.3f" % kv for kv in sorted(user_v.items())]
+        # two different residues under one name, a template for each of them (and possibly one size for the name):
+        # both templates are used as given and every residue still gets a positive size
+        multi = [nm for nm, lst in used.items() if len({id(x) for x in lst}) == 2 and
+                 all(x["bonds"] and not x["vs"] and x["atoms"] != alias_src for x in lst)]
+        for nm in multi:
+            seen_ids = set()
+            for r in used[nm]:
+                if id(r) in seen_ids:
+                    continue
+                seen_ids.add(id(r))
+                coords = {a: np.array([round(rng.uniform(-0.4, 0.4), 3) for _ in range(3)]) for a in r["atoms"]}
+                bl += ["[ template ]", "resname %s" % nm, "[ atoms ]"]
+                for j, a in enumerate(r["atoms"]):
+                    bl.append("%s %s %.3f %.3f %.3f" % (a, "A" if j % 2 == 0 else "B", coords[a][0], coords[a][1], coords[a][2]))
+                bl.append("[ bonds ]")
+                for i, j, _ in r["bonds"] + r.get("cons", []):
+                    bl.append("%s %s" % (r["atoms"][i], r["atoms"][j]))
+                user_t2[id(r)] = coords
+            if rng.random() < 0.6:
+                user_v2[nm] = round(rng.uniform(0.3, 0.8), 3)
+            bump(res, "two_templates_under_one_name")
+        if user_v2:
+            user_v_all = dict(user_v)
+            user_v_all.update(user_v2)
+        else:
+            user_v_all = user_v
+        if user_v_all:
+            vol = ["[ volumes ]"] + ["%s %.3f" % kv for kv in sorted(user_v_all.items())]
+            if rng.random() < 0.5:
+                bl = vol + bl          # sizes listed before the templates they belong to
+                bump(res, "build_files_with_volumes_first")
+            else:
+                bl += vol
         if bl:
             build = os.path.join(workdir, "t.bld")
             with open(build, "w") as fh:
@@ -384,9 +483,10 @@ def run_case(cid, rng, workdir):
             bump(res, "user_volumes")
             if size is None or abs(size - user_v[r["name"]]) > 1e-12:
                 violation(res, "user-volume-not-used", "build file gives %s the size %r, topology uses %r" % (r["name"], user_v[r["name"]], size), w)
-        if r["name"] in user_t:
+        if r["name"] in user_t or id(r) in user_t2:
             bump(res, "user_templates")
-            U = np.array([user_t[r["name"]][a] for a in r["atoms"]])
+            ut = user_t[r["name"]] if r["name"] in user_t else user_t2[id(r)]
+            U = np.array([ut[a] for a in r["atoms"]])
             U = U - U.mean(axis=0)
             if np.max(np.abs(U - P)) > 1e-9:
                 violation(res, "user-template-not-used-verbatim", "template of %s differs from the build-file coordinates minus "
@@ -425,6 +525,32 @@ def run_case(cid, rng, workdir):
                     if abs(phi - float(it.parameters[1])) > 5 + 1e-6:
                         violation(res, "reported-optimised-but-improper-off", "improper %s is %.2f deg (GROMACS sign convention), "
                                   "target %s" % (list(it.atoms), phi, it.parameters[1]), w)
+    # ---- what the generator reports -----------------------------------------------------------------------------
+    for block, coords in list(CAP["final"]):
+        rn = block.nodes[list(block.nodes)[0]]["resname"]
+        if rn in CAP["failed"] or rn in user_t or rn in user_v2 or any(r_["name"] == rn for r_, _k in reps if id(r_) in user_t2):
+            bump(res, "templates_reported_unoptimised")
+            continue
+        bump(res, "templates_reported_optimised_rechecked")
+        for sec in ("bonds", "constraints", "angles", "dihedrals"):
+            for it in block.interactions.get(sec, []):
+                if any(a not in coords for a in it.atoms):
+                    continue
+                X = [coords[a] for a in it.atoms]
+                try:
+                    if sec in ("bonds", "constraints"):
+                        dev, lim, what = abs(np.linalg.norm(X[0] - X[1]) - float(it.parameters[1])), 0.05 + 1e-9, "nm"
+                    elif sec == "angles":
+                        dev, lim, what = abs(ang(*X) - float(it.parameters[1])), 5 + 1e-6, "deg"
+                    elif it.parameters[0] == "2":
+                        dev, lim, what = abs(dihedral(*X) - float(it.parameters[1])), 5 + 1e-6, "deg"
+                    else:
+                        continue
+                except (ValueError, IndexError):
+                    continue
+                if dev > lim:
+                    violation(res, "template-reported-optimised-but-%s-off" % sec.rstrip("s"), "residue %s: no failure was reported "
+                              "for its template, but %s %s is off by %.3f %s" % (rn, sec, list(it.atoms), dev, what), w)
     # ---- sizes belong to the residue class, not to the residue name --------------------------------------------
     for nm, ids in names.items():
         if len(ids) > 1 and nm not in user_v:
@@ -435,6 +561,8 @@ def run_case(cid, rng, workdir):
                 bump(res, "size_independence_checks")
                 # two differently built multi-atom residues: sizes come from different geometries and cannot be
                 # bit-identical unless one was copied from the other through the shared residue name
+                if k1 not in top.volumes or k2 not in top.volumes:
+                    continue          # reported above as size-not-positive
                 if top.volumes[k1] == top.volumes[k2]:
                     violation(res, "size-shared-through-residue-name", "the two different residues named %s (%s and %s) have "
                               "exactly the same size %r" % (nm, r1["atoms"], r2["atoms"], top.volumes[k1]), w)
